@@ -61,6 +61,8 @@ def plans(ld):
         'default': (None, lambda j: FE),
         'single': (E1, lambda j: E1),
         'tuple': ((E1, E2), lambda j: (E1, E2)[j % 2]),
+        # documented: "one exception or a list of exceptions"
+        'list-of-types': ([E1, E2], lambda j: (E1, E2)[j % 2]),
         'subclass': (E1, lambda j: Sub1),
         'superclass-listed': (Exception, lambda j: (E1, E2, KeyError)[j % 3]),
         'filterexception-listed-explicitly': ((FE, E1), lambda j: (FE, E1)[j % 2]),
